@@ -211,6 +211,27 @@ def run_case(case, stats):
         env.close()
 
 
+EXHAUSTIVE_NOTE = "SELECT-rule matrix of vf/core/matrix.py: every subset of {sort, projection, deduplication, slice} on four bases followed by every one (all bases) or two (leaf base; thorough: all bases) of 13 operations, judged with the order-aware comparison"
+
+
+def exhaustive(tier, stats, shard, nshards, run):
+    from vf.core.matrix import select_matrix
+
+    plans = [(1, ("leaf", "sel", "chain", "join")), (2, ("leaf",) if tier == "quick" else ("leaf", "sel", "chain", "join"))]
+    idx = 0
+    for steps, bases in plans:
+        for label, case in select_matrix(steps, 0, bases):
+            idx += 1
+            if idx % nshards != shard:
+                continue
+            try:
+                run(case)
+            except Violation as v:
+                v.case = case
+                raise
+            stats.c["matrix_cases"] += 1
+
+
 def describe(case):
     if case[0] == "uploaded":
         return describe_case(*case[1], leaves_uploaded_through_processor=True)
